@@ -336,6 +336,9 @@ class FakeConn:
         self.peer = peer
         self._closed = False
         self.sent = 0
+        # fd inheritance: processes forked by the owner AFTER this connection existed hold a copy of the socket; the peer sees
+        # end-of-file only when the owner's handle is closed (or the owner is dead) AND every such child is dead
+        self.heirs = set()
 
     @property
     def closed(self):
@@ -346,6 +349,7 @@ class FakeConn:
             raise OSError('handle is closed')
         if self.tx.closed:
             how = self.k.choice(2, 'send-to-dead-peer')
+            self.tx.unread_at_death = True       # (a later recv on this socket may be reset as well)
             raise (ConnectionResetError if how == 0 else BrokenPipeError)('peer closed')
         data = pickle.dumps(obj)
         self.tx.q.append(data)
@@ -361,6 +365,10 @@ class FakeConn:
         if self._closed:
             raise OSError('handle is closed')
         if len(self.rx.q) == 0:
+            # the peer is gone.  A clean end-of-file - or, when the peer died with data from this endpoint still unread in its
+            # receive buffer (TCP then resets the connection instead of closing it), possibly ConnectionResetError: scheduler choice
+            if getattr(self.tx, 'unread_at_death', False) and self.k.choice(2, 'recv-from-dead-peer') == 1:
+                raise ConnectionResetError('connection reset by peer')
             raise EOFError
         obj = pickle.loads(self.rx.q.popleft())
         tag = obj[0] if isinstance(obj, tuple) and obj else obj
@@ -377,6 +385,15 @@ class FakeConn:
 
     def close(self):
         self._closed = True
+        if self.heirs:
+            return                   # children forked after this connection was made still hold the socket open
+        self.tx.closed = True
+        self.rx.closed = True
+
+    def _hangup(self):
+        """The last holder of this end is gone: the peer sees end-of-file (or a reset, if data it sent was never read)."""
+        if len(self.rx.q) > 0:
+            self.rx.unread_at_death = True
         self.tx.closed = True
         self.rx.closed = True
 
@@ -442,6 +459,10 @@ class SimLock:
     def release(self):
         self.held = False
         self.holder = None
+        rel = getattr(self.k, 'releases', None)
+        if rel is not None:          # observer hook (harness/rtdrive.py statistics): who released which lock during which step
+            me = self.k.me()
+            rel.append((me.name if me is not None else '', self.k.steps, self))
 
     def locked(self):
         return self.held
@@ -543,10 +564,16 @@ class Net:
         self.dead.add(node)
         for ref in self.conns:
             c = ref()
-            if c is not None and c.owner == node and not c._closed:
+            if c is None:
+                continue
+            if node in c.heirs:
+                c.heirs.discard(node)
+                if c._closed and not c.heirs and not c.tx.closed:
+                    c._hangup()              # the owner's handle was gone already; this was the last inherited copy
+            if c.owner == node and not c._closed:
                 c._closed = True
-                c.tx.closed = True
-                c.rx.closed = True
+                if not c.heirs:
+                    c._hangup()
         self.k.kill_node(node)
 
     def node(self):
@@ -635,6 +662,12 @@ def install():
             else:
                 self.node = 'proc%d' % next(net.seq)
             self.pid = self.node
+            # fork: the child inherits every connection its parent holds at this moment (see FakeConn.heirs)
+            parent = net.node()
+            for ref in net.conns:
+                c = ref()
+                if c is not None and c.owner == parent and not c._closed:
+                    c.heirs.add(self.node)
             self.st = net.spawn_process(self.node, self.target, self.args, self.kwargs)
 
         def join(self, timeout=None):
